@@ -29,6 +29,10 @@ CHECKS = {
          "The package clock is an owned choice (overlay routes time.Now/Until/Since to the harness): every expiry of a 53-element catalogue around a fixed instant T (exact-schema instants incl. T-1s/T/T+1s, other date layouts, offsets, impossible dates, junk) is verified in both wrappers through both entry points on an otherwise accepting chain with a marker inspection; every sequence of 2-3 verifications with the clock at T-1h/T/T+1h checks that no instant is remembered between calls; four real-clock cases far from now show the shipped path reads the clock. accept <=> the reference says well-formed and future; on reject no inspection ran.",
          "Trusted: reference calendar arithmetic; overlay rewriter. Outside: instants not in the catalogue; clock reads hidden in dependencies.",
          "DESIGN.md §3 C06"),
+ "C04": ("explicit-state BFS over sign/dump/load histories on live metadata objects against a reference model (set of signers), with independent crypto as interop oracle, plus an exhaustive mutation product on every signed state",
+         "Per content (plain and special-character link/layout) and wrapper: BFS to depth 3 (thorough 4) over Sign(k), dump+LoadMetadata, dump+deprecated Load and signatures added by an independent implementation; in every state VerifySignature succeeds exactly for the model's signers (4 pool keys + foreign key observed), payload unchanged, each signature verifies with crypto/* over reference canonical JSON / PAE of the dumped file. Every signed state of depth <= 2 gets every reflective single-point payload alteration, every signature byte flipped, truncation, key-id change and same-id/foreign-material keys incl. two-step histories; all must fail verification.",
+         "Trusted: ref.Canon/ref.PAE/ref.VerifySig. Outside: contents beyond the catalogue, key values, depth > 4.",
+         "DESIGN.md §3 C04"),
  "C05": ("bounded-exhaustive enumeration of single-point disagreements among counted links x layouts x uncounted links, each under every iteration order of the reference-link pick and counting loop (owned map-order seam)",
          "Layouts of 1..3 steps, thresholds 1..3 with 0/1 surplus valid links, one of 11 single-point differences (path added/removed/renamed, digest, algorithm renamed/added) on any counted link, every subset of unsigned/unauthorised/tampered uncounted links carrying other artifacts, strict and permissive rules, both wrappers, are verified end-to-end under every permutation of the reference-link pick and the per-link loop (plus one order deviation elsewhere): any disagreement must reject in every order, agreement must accept with a summary carrying the requested name, the first step's materials and the last step's products, and uncounted links must not change verdict or summary.",
          "Trusted: construction of the cases; overlay rewriter. Outside: multi-point disagreements, more than 4 links per step.",
